@@ -236,7 +236,7 @@ impl Property for C11 {
     }
     fn budget(tier: Tier) -> u64 {
         match tier {
-            Tier::Quick => 60_000,
+            Tier::Quick => 400_000,
             Tier::Thorough => 2_000_000,
         }
     }
@@ -251,6 +251,8 @@ impl Property for C11 {
             _ => tick_ms * rng.range(1, 12) + rng.below(tick_ms.max(1)),
         }
         .max(1);
+        // sometimes a duration shorter than one tick (the duration is crossed inside the very first step)
+        let dur_ms = if tick_ms >= 2 && rng.chance(1, 8) { rng.range(1, tick_ms - 1) } else { dur_ms };
         cfg.duration_ms = dur_ms;
         if rng.chance(1, 6) {
             cfg.duration_ms = 3_600_000;
